@@ -205,11 +205,16 @@ def run():
                 ('atc', dict(fbase, authors=[X, Y], tags=[[b't', b'a']]), (X, 1, [tA]), (X, 1, [tA]), (Y, 1, [tA])),
                 ('ktc', dict(fbase, kinds=[1, 7], tags=[[b't', b'a']]), (X, 1, [tA]), (Y, 1, [tA]), (X, 7, [tA])),
                 ('tc', dict(fbase, tags=[[b't', b'a', b'b']]), (X, 1, [tA]), (Y, 1, [tA]), (X, 1, [tB])),
+                # the ids plan: the listed ids are looked up one by one; an id passed over as absent and a later
+                # id must not be answered from different committed states
+                ('ids', None, (X, 1, [tA]), (Y, 1, [tA]), (X, 7, [tB])),
             ]
             for name, f, f0, ea, eb in shapes:
                 F0 = mk(f0[0], f0[1], 100, f0[2])
                 EA = mk(ea[0], ea[1], rng.choice([50, 150]), ea[2])
                 EB = mk(eb[0], eb[1], rng.choice([60, 160]), eb[2])
+                if name == 'ids':
+                    f = dict(fbase, ids=[EA['id'], F0['id'], EB['id']])
                 fnd = 'FND %s 1 0 0 m' % fl_tok(f)
                 pre = ['STO ' + ev_tok(F0)]
                 scen2.append(dict(name=name, pre=pre, point='screen:call', a=fnd,
